@@ -369,7 +369,7 @@ def index_labels(kind, perm, n):
 
 
 def midpoint_rounds_onto_score(case):
-    """predicate of known finding F17: some group has two consecutive DISTINCT scores a > b whose binary64 midpoint
+    """predicate of known finding F18: some group has two consecutive DISTINCT scores a > b whose binary64 midpoint
     (a + b) / 2 -- computed as the implementation computes it -- is not strictly between them"""
     gs, rows = groups_of(case)
     for g in gs:
